@@ -1,6 +1,8 @@
 package props
 
 import (
+	"time"
+
 	"verif/internal/explore"
 	"verif/internal/report"
 	"verif/internal/run"
@@ -20,3 +22,5 @@ func sweepCheck(prop, tier string, kinds []run.Kind, co explore.CaseOpts, onResu
 	fo.EvalCounter = "calls"
 	return c.Finish(fo)
 }
+
+func timeUp(deadline time.Time) bool { return time.Now().After(deadline) }
